@@ -23,7 +23,8 @@ THEOREMS = ["GmqttVerif.C09.elem_roundtrip", "GmqttVerif.C09.message_roundtrip",
             "GmqttVerif.C09.terminate_meaning",
             # C10, redis backend (Properties/C10Redis.lean): refinement of the memory queue, proved for the single-entry operations
             "GmqttVerif.C10Redis.redis_refines_mem_init", "GmqttVerif.C10Redis.redis_refines_mem_add",
-            "GmqttVerif.C10Redis.redis_refines_mem_remove", "GmqttVerif.C10Redis.redis_refines_mem_close",
+            "GmqttVerif.C10Redis.redis_refines_mem_remove", "GmqttVerif.C10Redis.redis_refines_mem_replace",
+            "GmqttVerif.C10Redis.redis_refines_mem_close",
             "GmqttVerif.C10Redis.sim_new"]
 COMPS = ["redis"]
 GO_EXTRA = ["broker"]
@@ -654,7 +655,7 @@ def pred_crash(ops, out):
                     "session whose removal the crash interrupted reappear although they were never made in the new session")
         cids = {c["cid"] for c in F["conn"]}
         for cid in cids:
-            st, exp, inprog = None, 0, False        # st: None never / True alive / False ended
+            st, exp, inprog, exp_new = None, 0, False, None        # st: None never / True alive / False ended
             for c in F["conn"]:
                 if c["cid"] != cid: continue
                 if c["e"] <= k:
@@ -663,7 +664,7 @@ def pred_crash(ops, out):
                 elif c["s"] < k < c["e"] and (c["new"] is not False):
                     inprog = True           # a registration / removal is in progress: old or no session
                 elif c["s"] < k < c["e"]:
-                    exp = None              # resume in progress: only the stored expiry may differ
+                    exp_new = c["exp"]      # resume in progress: the stored expiry may already be the new one
             blk = blocks.get(cid)
             if inprog:
                 if blk is None or not st:
@@ -671,7 +672,7 @@ def pred_crash(ops, out):
                 # the old session is still visible: then it must be intact (checked below as if nothing had started)
             elif st is not True:
                 continue
-            if st is True and exp == 0:
+            if st is True and (exp == 0 or exp_new == 0):
                 continue                     # a session that ends with its connection: no durability promised
             if blk is None:
                 if inprog: continue
